@@ -6,11 +6,6 @@ static const char *const CNT[] = { "info_zero", "pivots_replaced", "rcond_warnin
 enum { K_I0, K_REPL, K_WARN, K_EXACT, K_MC64, K_NOR, K_EN, K_ER, K_EC, K_EB, K_TN, K_TT, K_TC, K_NR, K_UREP, K_MULTI, K_SEC, K_MILU, K_QUIRK };
 static const char *const RAT[] = { "solve_residual_over_allowance", "nodrop_identity_over_allowance", NULL };
 
-static const int DROPS[] = { NODROP, DROP_BASIC, DROP_BASIC | DROP_AREA, DROP_BASIC | DROP_PROWS, DROP_BASIC | DROP_COLUMN, DROP_BASIC | DROP_AREA | DROP_DYNAMIC, DROP_BASIC | DROP_PROWS | DROP_INTERP };
-static const double TOLS[] = { 1e-4, 0.5, 0.0 };
-static const double FILLS[] = { 10.0, 1.0, 2.0 };
-static const norm_t NORMS[] = { INF_NORM, ONE_NORM, TWO_NORM };
-static const milu_t MILUS[] = { SILU, SMILU_2, SMILU_1, SMILU_3 };
 static const int CP_I[] = { 0, 3, 2 };
 static const int VALS_I[] = { 1, 0, 4, 5, 3 };
 static const int TUNE_I[] = { 0, 3, 9 };
@@ -42,59 +37,25 @@ static void run_C15(const vcase *c, vres *r)
     (void)sI_bt;
     xs s; xs_init(&s, T, n, c->pat, c->vals, c->stor); s.ilu = 1;
     dmat A_in = s.A_orig, B, B_in, B_after; make_rhs(T, &A_in, c->trans, c->rhs, 1, &B); xs_set_rhs(&s, &B, 0, 0); dn_to_dense(&s.B, &B_in);
-    superlu_options_t opt; ilu_set_default_options(&opt); opt.PrintStat = NO;
-    int kk = c->k, drop = kk % 7, tol = (kk / 7) % 3, fill = (kk / 21) % 3, norm = (kk / 63) % 3, milu = (kk / 189) % 4;
-    opt.ILU_DropRule = DROPS[drop]; opt.ILU_DropTol = TOLS[tol]; opt.ILU_FillFactor = FILLS[fill]; opt.ILU_Norm = NORMS[norm]; opt.ILU_MILU = MILUS[milu];
-    opt.RowPerm = c->aux ? LargeDiag_MC64 : NOROWPERM; opt.Trans = (trans_t[]){ NOTRANS, TRANS, CONJ }[c->trans];
-    opt.ColPerm = (colperm_t[]){ NATURAL, MMD_ATA, MMD_AT_PLUS_A, COLAMD }[c->colperm]; opt.Equil = c->equil ? YES : NO; opt.DiagPivotThresh = c->u;
-    opt.ConditionNumber = (c->pat & 1) ? YES : NO; opt.PivotGrowth = NO;
+    superlu_options_t opt; xs_ilu_options(c, c->aux, &opt);
+    int kk = c->k, drop = kk % 7, milu = (kk / 189) % 4;
     int_t *ind0 = intMalloc(s.S.nnz ? s.S.nnz : 1), *ptr0 = intMalloc(n + 1); memcpy(ind0, s.S.ind, sizeof(int_t) * s.S.nnz); memcpy(ptr0, s.S.ptr, sizeof(int_t) * (n + 1));
     memset(&s.Glu, 0, sizeof s.Glu);
     xs_call(&s, &opt);
     dn_to_dense(&s.B, &B_after);
     long info = s.info;
-    WK_COUNT(c->aux ? K_MC64 : K_NOR); WK_COUNT(K_TN + c->trans); if (c->stor) WK_COUNT(K_NR); if (DROPS[drop] & DROP_SECONDARY) WK_COUNT(K_SEC); if (milu) WK_COUNT(K_MILU);
+    WK_COUNT(c->aux ? K_MC64 : K_NOR); WK_COUNT(K_TN + c->trans); if (c->stor) WK_COUNT(K_NR); if (xs_ilu_drops[drop] & DROP_SECONDARY) WK_COUNT(K_SEC); if (milu) WK_COUNT(K_MILU);
     r->nontrivial = (n >= 2 && s.S.nnz > n);
     r->outcome = fnv(fnv(0, &info, sizeof info), s.perm_c, sizeof(int) * n);
     if (memcmp(ind0, s.S.ind, sizeof(int_t) * s.S.nnz) || memcmp(ptr0, s.S.ptr, sizeof(int_t) * (n + 1))) { wk_fail(r, "row-indices-not-restored", "xgsisx returned A with modified row indices / column pointers"); goto done; }
-    if (info < 0 || info > n + 1) { wk_fail(r, "unexpected-info", "info=%ld from the ILU driver on a structurally nonsingular matrix (n=%d)", info, n); goto done; }
-    if (info == n + 1 && opt.ConditionNumber != YES) { wk_fail(r, "unexpected-info", "info=n+1 although ConditionNumber=NO"); goto done; }
-    if (info == 0) WK_COUNT(K_I0); else if (info <= n) WK_COUNT(K_REPL); else WK_COUNT(K_WARN);
-    if (!is_perm(s.perm_r, n) || !is_perm(s.perm_c, n)) { wk_fail(r, "perm-not-bijection", "perm_r / perm_c is not a permutation (info=%ld)", info); goto done; }
+    if (info == 0) WK_COUNT(K_I0); else if (info > 0 && info <= n) WK_COUNT(K_REPL); else if (info == n + 1) WK_COUNT(K_WARN);
     {
-        verdict vd; memset(&vd, 0, sizeof vd);
-        if (check_LU_structure(T, &s.L, &s.U, n, n, 1, &vd)) { wk_fail(r, "structure", "%s", vd.msg); goto done; }
-        const SCformat *Ls = s.L.Store; if (Ls->nsuper < n - 1) WK_COUNT(K_MULTI);
-        dmat Ld, Ud; if (expand_L(T, &s.L, &Ld) || expand_U(T, &s.L, &s.U, &Ud)) { wk_fail(r, "structure", "cannot expand factors"); goto done; }
-        for (int j = 0; j < n; j++) { xc u = DM(&Ud, j, j); if (u == 0 || !isfinite((double)creall(u)) || !isfinite((double)cimagl(u))) { wk_fail(r, "bad-diagonal", "U(%d,%d) = %Lg%+Lgi (info=%ld)", j, j, creall(u), cimagl(u), info); goto done; } }
-        /* scaling of A and B as documented */
-        char e = s.equed[0]; WK_COUNT(e == 'N' ? K_EN : e == 'R' ? K_ER : e == 'C' ? K_EC : K_EB);
-        if (o_scaling(&s, &A_in, &B_in, c->trans, c->equil, r)) goto done;
-        /* X is exactly the preconditioner solve defined by the returned factors: residual w.r.t. M = Pr' L U Pc' */
-        int notran_eff = (c->trans == 0); if (c->stor == 1) notran_eff = !notran_eff;
-        int rowequ = (e == 'R' || e == 'B'), colequ = (e == 'C' || e == 'B');
-        dmat M, G, Xd, Xs; memset(&M, 0, sizeof M); M.m = M.n = n;
-        for (int i = 0; i < n; i++) for (int j = 0; j < n; j++) { int pi = s.perm_r[i], pj = s.perm_c[j]; xc acc = 0; for (int k2 = 0; k2 <= pi && k2 <= pj; k2++) acc += DM(&Ld, pi, k2) * DM(&Ud, k2, pj); DM(&M, i, j) = acc; DZ(&M, i, j) = 1; }
-        build_G(&Ld, &Ud, s.perm_r, s.perm_c, 0, &G);
-        dn_to_dense(&s.X, &Xd); Xs = Xd;
-        for (int i = 0; i < n; i++) { xr f = (notran_eff && colequ) ? T->rld(s.Cbuf, i) : (!notran_eff && rowequ) ? T->rld(s.Rbuf, i) : 1; DM(&Xs, i, 0) = DM(&Xd, i, 0) / f; }
-        /* effective operation on the factored orientation */
-        int op = (c->stor == 0) ? c->trans : (c->trans == 0 ? 1 : 0);
-        double ratio = 0; vres r2; memset(&r2, 0, sizeof r2);
-        if (o_residual(T, &M, op, &G, &B_after, &Xs, 16.0, &r2, &ratio)) {
-            if (c->stor == 1 && c->trans == 2 && T->cplx) { WK_COUNT(K_QUIRK); }
-            wk_fail(r, "solve-not-factor-solve", "X is not the solve with the returned factors: %s", r2.msg); goto done;
-        }
-        WK_RATIO(0, ratio);
-        /* dropping disabled and no pivot replaced: complete-LU guarantees */
-        int nodrop = (DROPS[drop] == NODROP) || (TOLS[tol] == 0.0 && !(DROPS[drop] & DROP_SECONDARY));
-        if (nodrop && info == 0 && milu == 0) {
-            dmat A1, F; xs_current_A(&s, &A1); if (c->stor == 0) F = A1; else transpose_dm(&A1, &F);
-            if (check_LU_identity(T, &F, &Ld, &Ud, s.perm_r, s.perm_c, 16.0, &vd)) { wk_fail(r, "nodrop-not-exact", "dropping disabled, no pivot replaced, but %s", vd.msg); goto done; }
-            WK_RATIO(1, vd.ratio); WK_COUNT(K_EXACT);
-        }
-        /* statistic: repeated rows in U */
-        { const NCformat *Us = s.U.Store; for (int j = 0; j < n; j++) { unsigned seen = 0; for (int_t k2 = Us->colptr[j]; k2 < Us->colptr[j + 1]; k2++) { if (seen >> Us->rowind[k2] & 1) { WK_COUNT(K_UREP); j = n; break; } seen |= 1u << Us->rowind[k2]; } } }
+        char e = s.equed[0]; ilu_stats st;
+        int bad = o_ilu(&s, c->trans, c->equil, &A_in, &B_in, &B_after, ilu_nodrop(c->k), opt.ConditionNumber == YES, r, &st);
+        if (st.multi) WK_COUNT(K_MULTI); if (st.urep) WK_COUNT(K_UREP); if (st.quirk) WK_COUNT(K_QUIRK);
+        if (bad) goto done;
+        WK_COUNT(e == 'N' ? K_EN : e == 'R' ? K_ER : e == 'C' ? K_EC : K_EB);
+        WK_RATIO(0, st.ratio_solve); if (st.exact) { WK_RATIO(1, st.ratio_id); WK_COUNT(K_EXACT); }
     }
 done:
     SUPERLU_FREE(ind0); SUPERLU_FREE(ptr0);
